@@ -327,6 +327,60 @@ func runC15(c *Ctx) {
 			return condHasConst("2")(info, e) && nodeHasBuiltin(info, e, "len")
 		}, nil)
 	}
+
+	// packed-refs is sorted when git writes it and is not when PackRefs does (loose references first, then the lines
+	// that were packed before). The single-name lookup therefore scans until it finds the name: the callback it hands
+	// to the line scanner stops the scan (returns false) only on the edge where the entry's name equals the name looked
+	// up; a stop decided by an ordering of names makes a reference that is still listed unreadable by name.
+	const r6 = "packed-lookup-scans-until-found"
+	if pr := c.MustFunc(r6, dotgitShort+".(*DotGit).packedRef"); pr != nil {
+		c.Analysed(pr)
+		params := paramObjs(info, pr.Decl)
+		var lit *ast.FuncLit
+		walkCalls(pr.Decl.Body, false, func(call *ast.CallExpr) {
+			if callsNamed(info, "findPackedRefs")(call) && len(call.Args) == 1 {
+				if fl, ok := unparen(call.Args[0]).(*ast.FuncLit); ok {
+					lit = fl
+				}
+			}
+		})
+		if lit == nil || len(params) == 0 {
+			c.Hold(r6, pr.Name(), pr.Decl.Pos(), "not decided: no callback literal handed to findPackedRefs")
+		} else {
+			f := p.NewFlow(info, lit.Body)
+			nameEq := FactGuard(func(_ *Flow, fact Fact) bool {
+				be, ok := unparen(fact.Atom).(*ast.BinaryExpr)
+				if !ok {
+					return false
+				}
+				eq := (be.Op == token.EQL && fact.Truth) || (be.Op == token.NEQ && !fact.Truth)
+				return eq && (objOf(info, be.X) == types.Object(params[0]) || objOf(info, be.Y) == types.Object(params[0]))
+			})
+			k := 0
+			for _, loc := range f.Locs(func(nd ast.Node) bool { _, ok := nd.(*ast.ReturnStmt); return ok }) {
+				ret := loc.B.Nodes[loc.Idx].(*ast.ReturnStmt)
+				if len(ret.Results) != 1 {
+					continue
+				}
+				tv := info.Types[ret.Results[0]]
+				if tv.Value != nil && tv.Value.String() == "true" {
+					continue
+				}
+				k++
+				key := pr.Name() + ":stop#" + itoa(k)
+				if tv.Value == nil {
+					c.Violate(r6, key, ret.Pos(), "the scan of packed-refs can stop on a computed condition ("+exprString(ret.Results[0])+") before the name was found: the file is not sorted when PackRefs wrote it, so a reference that listings still show is reported as not found")
+					continue
+				}
+				h := f.UnguardedPath(nameEq, loc)
+				c.Check(h == nil, r6, key, ret.Pos(), orStr(ifStr(h != nil, "the scan of packed-refs is stopped on a path that did not compare the entry's name with the name looked up"), "the scan stops only where the entry's name equals the name looked up"))
+			}
+			if k == 0 {
+				c.Hold(r6, pr.Name(), pr.Decl.Pos(), "the callback never stops the scan")
+			}
+		}
+	}
+	c.Floor(r6, 1)
 }
 
 // usesRefDerivedPath: the call's argument is a variable whose definition mentions Reference.Name().
